@@ -1393,6 +1393,7 @@ where
     // Structure: identifier, !, (, args..., )
     let mut result = allocator.nil();
     let mut args = Vec::new();
+    let mut commas = Vec::new();
     let mut in_args = false;
     let mut open_doc = allocator.nil();
     let mut close_doc = allocator.nil();
@@ -1428,7 +1429,8 @@ where
                     continue;
                 }
                 TokenKind::Comma if in_args => {
-                    // Skip comma - we'll add our own with proper spacing
+                    // Keep the comma as written, with the comments attached to it
+                    commas.push(emit_token_with_trivia(*token_index, ctx, allocator));
                     continue;
                 }
                 _ => {}
@@ -1446,7 +1448,17 @@ where
     if args.is_empty() {
         result.append(open_doc).append(close_doc)
     } else {
-        let args_doc = allocator.intersperse(args, allocator.text(", "));
+        let n_args = args.len();
+        let mut commas = commas.into_iter();
+        let mut args_doc = allocator.nil();
+        for (i, arg) in args.into_iter().enumerate() {
+            args_doc = args_doc.append(arg);
+            if i + 1 < n_args {
+                args_doc = args_doc
+                    .append(commas.next().unwrap_or_else(|| allocator.text(",")))
+                    .append(allocator.text(" "));
+            }
+        }
         result.append(open_doc).append(args_doc).append(close_doc)
     }
 }
@@ -1727,6 +1739,8 @@ where
     let mut items = Vec::new();
     // The separating commas as written, with the comments attached to them
     let mut commas = Vec::new();
+    // Whether the comma seen last carries a comment (matters if it turns out to be a trailing comma)
+    let mut trailing_comma_has_comment: Option<bool> = None;
     let mut current: Option<DocBuilder<'a, D, A>> = None;
     let mut open_doc = allocator.nil();
     let mut close_doc = allocator.nil();
@@ -1749,6 +1763,17 @@ where
                 TokenKind::Comma => {
                     items.extend(current.take());
                     commas.push(emit_token_with_trivia(*token_index, ctx, allocator));
+                    trailing_comma_has_comment = find_preparsed_index(*token_index, ctx.preparsed)
+                        .map(|idx| {
+                            let leading = ctx.preparsed.get_leading_trivia(idx, ctx.tokens);
+                            let trailing = ctx.preparsed.get_trailing_trivia(idx, ctx.tokens);
+                            leading.into_iter().chain(trailing).any(|t| {
+                                matches!(
+                                    t.kind,
+                                    TokenKind::SingleLineComment | TokenKind::MultiLineComment
+                                )
+                            })
+                        });
                     continue;
                 }
                 _ => {}
@@ -1784,6 +1809,9 @@ where
                 // `(x,)` is a one-element tuple (expression, pattern or type); without the comma it
                 // would be a parenthesised item
                 items_doc = items_doc.append(comma.unwrap_or_else(|| allocator.nil()));
+            } else if let Some((comma, true)) = comma.zip(trailing_comma_has_comment) {
+                // a trailing comma is dropped unless comments are attached to it
+                items_doc = items_doc.append(comma);
             }
         }
         // Wrap in group for proper line breaking
